@@ -22,7 +22,9 @@ PLAN = {
         profiles=[dict(feat={"task", "finish", "ctx", "run", "alog", "tb", "remote", "spawn", "ext", "preserve"}, nctx=3, ndest=3, init=[1, 2, 3],
                        dfault=0.2, maxlen=40),
                   dict(feat={"finish", "ctx", "task"}, ndest=2, init=[1, 2], maxlen=40, abort=0.2,
-                       weights={"Exit": 3.0, "Finish": 3.0, "EnterWith": 3.0})],
+                       weights={"Exit": 3.0, "Finish": 3.0, "EnterWith": 3.0}),
+                  # start-up buffering handed over to destinations some of which fail: "emission order = level order" at the healthy one
+                  dict(feat={"finish", "ctx", "task", "dests"}, ndest=3, init=[], dfault=0.3, maxlen=30)],
         extra="c02_raced_ids", keep_sizes=True),
     "C03": dict(
         exhaustive=[("MC_Core.cfg", [1], 1)],
@@ -100,6 +102,9 @@ def capacity_histories(tier):
     progs = []
     for n in ((1000, 1001, 2003) if tier == "quick" else (999, 1000, 1001, 1999, 2000, 2001, 2500, 3001, 4100)):   # (multiples of the capacity: a buffer trimmed in bulk)
         ops = [{"op": "Log", "c": 1, "ty": "m"} for _ in range(n)]
+        if n % 2:
+            # inside one action: the task_level says WHICH messages survived in the buffer (context-less messages all look alike)
+            ops = [{"op": "StartTask", "c": 1, "ty": "A"}, {"op": "Enter", "c": 1, "kind": "with", "a": 1}] + ops
         ops += [{"op": "AddGlobal", "c": 1, "f": "g1", "v": 1}, {"op": "AddDests", "c": 1, "S": [1, 2]}, {"op": "Log", "c": 1, "ty": "m"},
                 {"op": "AddDests", "c": 1, "S": [3]}, {"op": "Log", "c": 1, "ty": "m"}, {"op": "RemoveDest", "c": 1, "d": 2}, {"op": "Log", "c": 1, "ty": "m"}]
         progs.append({"init": [], "ndest": 3, "ops": ops, "wit": n, "collide": False})
